@@ -1447,7 +1447,8 @@ def compile_pattern(compiler, pattern):
         if value[1] == Symbol("_"):
             # `#* _` is a wildcard, like Python's `*_`, not a capture.
             return asty.MatchStar(value, name=None)
-        return compiler.scope.assign(asty.MatchStar(value, name=mangle(value[1])))
+        return compiler.scope.assign(
+            asty.MatchStar(value, name=mangle(compiler._nonconst(value[1]))))
 
     elif isinstance(value, Dict):
         kvs, rest = value
@@ -1464,6 +1465,8 @@ def compile_pattern(compiler, pattern):
     elif isinstance(value, Expression):
         head, args, kwargs = value
         keywords, values = zip(*kwargs) if kwargs else ([], [])
+        if str(head) in ("None", "True", "False"):
+            compiler._syntax_error(head, "a class pattern needs a class, not a constant")
         return asty.MatchClass(
             value,
             cls=compiler.compile(
